@@ -30,6 +30,8 @@ inductive Op where
   | pipe
   | nb (fd : Nat)
   | rlim
+  | fill (fd : Nat)
+  | sel (fd : Nat) (forWriting : Bool)
 
 /-- what an operation answers -/
 inductive Obs where
@@ -45,6 +47,7 @@ inductive Obs where
   | names (l : List String)
   | path (p : Path)
   | access (rd wr : Bool)
+  | full
   deriving DecidableEq, Repr
 
 /-- a path that lexically leaves the scratch root (or is absolute) is refused by the harness guard -/
@@ -122,6 +125,14 @@ def step (k : K) : Op → K × Obs
     | .ok b k' => (k', .flag b)
     | .err e => (k, .err e)
   | .rlim => (k, .num k.limit)
+  | .fill fd =>
+    match fillPipe k fd with
+    | .ok _ k' => (k', .full)
+    | .err e => (k, .err e)
+  | .sel fd w =>
+    match (if w then writeReady k fd else readReady k fd) with
+    | .ok b => (k, .flag b)
+    | .error e => (k, .err e)
 
 /-- a whole case: the observations in order and the final state -/
 def run (k : K) : List Op → List Obs × K
